@@ -22,16 +22,16 @@ PROP = dict(
     assumptions=['key/response structures are zero-initialised before parsing, as every in-tree caller does',
                  'input buffers are exact-size heap copies without a terminating NUL (the APIs take pointer+length)'],
     targets=[
-        T('c09_x509_cert', 'x509_cert.cc', 12, max_len=70000),   # > 64 KiB: 16-bit psSize_t wrap with the bytes really present
-        T('c09_x509_pem_bundle', 'x509_pem_bundle.cc', 8),
-        T('c09_crl', 'crl.cc', 10, max_len=70000),
-        T('c09_ocsp_response', 'ocsp_response.cc', 10, max_len=70000),
-        T('c09_pkcs8', 'pkcs8.cc', 7, timeout=40),
-        T('c09_pkcs12', 'pkcs12.cc', 10, timeout=40),
-        T('c09_privkey_any', 'privkey_any.cc', 8, timeout=40),
+        T('c09_x509_cert', 'x509_cert.cc', 10, max_len=70000),   # > 64 KiB: 16-bit psSize_t wrap with the bytes really present
+        T('c09_x509_pem_bundle', 'x509_pem_bundle.cc', 7),
+        T('c09_crl', 'crl.cc', 8, max_len=70000),
+        T('c09_ocsp_response', 'ocsp_response.cc', 8, max_len=70000),
+        T('c09_pkcs8', 'pkcs8.cc', 6, timeout=40),
+        T('c09_pkcs12', 'pkcs12.cc', 8, timeout=40),
+        T('c09_privkey_any', 'privkey_any.cc', 7, timeout=40),
         T('c09_pubkey_any', 'pubkey_any.cc', 7),
-        T('c09_dh_params', 'dh_params.cc', 5),
+        T('c09_dh_params', 'dh_params.cc', 4),
         T('c09_pem_decode', 'pem_decode.cc', 6),
-        T('c09_load_keys_mem', 'load_keys_mem.cc', 10, timeout=40),
+        T('c09_load_keys_mem', 'load_keys_mem.cc', 8, timeout=40),
     ],
 )
